@@ -3,7 +3,7 @@
 use crate::{P, V};
 use serde::{de::DeserializeOwned, Serialize};
 use serde_json::Value;
-use yata::core::{Action, Candle, Error, IndicatorConfig, IndicatorConfigDyn, IndicatorInstance, IndicatorResult, Method, Source, OHLCV};
+use yata::core::{Action, Candle, Error, IndicatorConfig, IndicatorConfigDyn, IndicatorInstance, IndicatorResult, Method, Sequence, Source, OHLCV};
 use yata::helpers::Peekable;
 use yata::methods::*;
 
@@ -229,6 +229,19 @@ pub struct MDesc {
 	/// explicitly cumulative / counting (exempt from C08)
 	pub cumulative_when_zero: bool,
 	pub ctor: fn(&Par, &In) -> Result<Box<dyn DM>, Error>,
+	/// runs every batch/wrapper API of the concrete type (C09)
+	pub batch: fn(&Par, &In, &[In], &[usize]) -> Vec<Batch>,
+}
+
+/// result of one batch-style API: its outputs and which reference it must equal
+pub struct Batch {
+	pub api: &'static str,
+	pub out: Vec<Out>,
+	/// 0: reference = new(par, init) then next over xs; 1: reference = new(par, xs[0]) then next over xs;
+	/// 2: reference = new(par, init), one next(init), then next over xs (WithLastValue feeds the initial value once)
+	pub reference: u8,
+	/// harness-detected protocol error (wrong lengths, get() mismatch ...)
+	pub error: Option<String>,
 }
 
 macro_rules! with_in {
@@ -326,7 +339,7 @@ macro_rules! kind_of {
 }
 
 macro_rules! dm {
-	($w:ident, $ty:ty, $ik:ident, $pk:ident, $peek:ident) => {
+	($w:ident, $ty:ty, $ik:ident, $pk:ident, $peek:ident, $bk:ident) => {
 		#[derive(Clone)]
 		pub struct $w(pub $ty);
 		impl DM for $w {
@@ -352,6 +365,9 @@ macro_rules! dm {
 				let m = with_in!($ik, x, v, <$ty as Method>::new(conv_par!($pk, p), v))?;
 				Ok(Box::new($w(m)))
 			}
+			pub fn batch(p: &Par, init: &In, xs: &[In], chunks: &[usize]) -> Vec<Batch> {
+				$bk::<$ty>(|| conv_par!($pk, p), init, xs, chunks)
+			}
 		}
 	};
 }
@@ -369,54 +385,305 @@ macro_rules! md {
 			max_len: $max,
 			cumulative_when_zero: $cum,
 			ctor: $w::ctor,
+			batch: $w::batch,
 		}
 	};
 }
 
-dm!(WSma, SMA, V, L, yes);
-dm!(WWma, WMA, V, L, yes);
-dm!(WSwma, SWMA, V, L, yes);
-dm!(WTrima, TRIMA, V, L, yes);
-dm!(WHma, HMA, V, L, yes);
-dm!(WLinReg, LinReg, V, L, yes);
-dm!(WConv, Conv, V, W, yes);
-dm!(WVwma, VWMA, P, L, yes);
-dm!(WIntegral, Integral, V, L, yes);
-dm!(WDerivative, Derivative, V, L, no);
-dm!(WMomentum, Momentum, V, L, no);
-dm!(WRoc, RateOfChange, V, L, no);
-dm!(WPast, Past<V>, V, L, yes);
-dm!(WStDev, StDev, V, L, yes);
-dm!(WMeanAbsDev, MeanAbsDev, V, L, yes);
-dm!(WMedianAbsDev, MedianAbsDev, V, L, yes);
-dm!(WCci, CCI, V, L, no);
-dm!(WLinVol, LinearVolatility, V, L, yes);
-dm!(WAdi, ADI, C, L, yes);
-dm!(WEma, EMA, V, L, yes);
-dm!(WDma, DMA, V, L, yes);
-dm!(WTma, TMA, V, L, yes);
-dm!(WDema, DEMA, V, L, yes);
-dm!(WTema, TEMA, V, L, yes);
-dm!(WRma, RMA, V, L, yes);
-dm!(WWsma, WSMA, V, L, yes);
-dm!(WSmm, SMM, V, L, yes);
-dm!(WVidya, Vidya, V, L, yes);
-dm!(WTsi, TSI, V, LL, yes);
-dm!(WTr, TR, C, U, no);
-dm!(WHeikin, HeikinAshi, C, U, no);
-dm!(WHighest, Highest, V, L, yes);
-dm!(WLowest, Lowest, V, L, yes);
-dm!(WHld, HighestLowestDelta, V, L, yes);
-dm!(WHighestIndex, HighestIndex, V, L, yes);
-dm!(WLowestIndex, LowestIndex, V, L, yes);
-dm!(WCross, Cross, P, U, no);
-dm!(WCrossAbove, CrossAbove, P, U, no);
-dm!(WCrossUnder, CrossUnder, P, U, no);
-dm!(WReversal, ReversalSignal, V, LL, no);
-dm!(WUpperReversal, UpperReversalSignal, V, LL, no);
-dm!(WLowerReversal, LowerReversalSignal, V, LL, no);
-dm!(WCollapse, CollapseTimeframe<Candle>, CC, Sz, no);
-dm!(WRenko, Renko, C, Renko, no);
+
+// ---------------------------------------------------------------------------------------------
+// batch / wrapper APIs (C09), generic over the concrete method type
+
+fn unv(xs: &[In]) -> Vec<V> {
+	xs.iter().map(|x| if let In::V(v) = x { *v } else { panic!("harness: wrong input kind") }).collect()
+}
+fn unc(xs: &[In]) -> Vec<Candle> {
+	xs.iter().map(|x| if let In::C(c) = x { *c } else { panic!("harness: wrong input kind") }).collect()
+}
+fn unp(xs: &[In]) -> Vec<(V, V)> {
+	xs.iter().map(|x| if let In::P(a, b) = x { (*a, *b) } else { panic!("harness: wrong input kind") }).collect()
+}
+
+fn outs<O: IntoOut>(v: Vec<O>) -> Vec<Out> {
+	v.into_iter().map(IntoOut::into_out).collect()
+}
+
+/// wrappers common to every input kind: with_history, with_last_value, into_fn, new_fn
+fn wrappers<T, I: ?Sized + 'static>(mk: &dyn Fn() -> T::Params, init: &I, xs: &[&I], res: &mut Vec<Batch>)
+where
+	T: Method<Input = I> + 'static,
+	T::Output: IntoOut + Clone + std::fmt::Debug,
+{
+	// with_history
+	if let Ok(mut h) = T::with_history(mk(), init) {
+		let mut out = Vec::new();
+		let mut err = None;
+		for (i, x) in xs.iter().enumerate() {
+			let o = h.next(x);
+			out.push(o.clone().into_out());
+			// get(0) is the newest output, get(i) the first, get(i+1) None
+			let g0 = h.get(0).map(IntoOut::into_out);
+			if g0.as_ref().map(Out::bits) != Some(out[i].bits()) {
+				err = Some(format!("with_history.get(0) is not the newest output at step {i}"));
+			}
+			if h.get(i + 1).is_some() {
+				err = Some(format!("with_history.get({}) yields beyond the history at step {i}", i + 1));
+			}
+			if i > 0 {
+				let gl = h.get(i).map(IntoOut::into_out);
+				if gl.as_ref().map(Out::bits) != Some(out[0].bits()) {
+					err = Some(format!("with_history.get({i}) is not the oldest output"));
+				}
+			}
+		}
+		let via_iter: Vec<Out> = h.iter().cloned().map(IntoOut::into_out).collect();
+		let via_ref: Vec<Out> = (&h).into_iter().cloned().map(IntoOut::into_out).collect();
+		let via_into: Vec<Out> = h.into_iter().map(IntoOut::into_out).collect();
+		let same = |a: &Vec<Out>, b: &Vec<Out>| a.len() == b.len() && a.iter().zip(b.iter()).all(|(x, y)| x.bits() == y.bits());
+		if !same(&via_iter, &out) || !same(&via_ref, &out) || !same(&via_into, &out) {
+			err = Some("with_history iter()/into_iter() differ from the produced outputs".into());
+		}
+		res.push(Batch { api: "with_history", out, reference: 0, error: err });
+	}
+	// with_last_value
+	if let Ok(mut h) = T::with_last_value(mk(), init) {
+		let mut out = Vec::new();
+		let mut err = None;
+		for (i, x) in xs.iter().enumerate() {
+			let o = h.next(x).into_out();
+			let p = h.peek().into_out();
+			if p.bits() != o.bits() {
+				err = Some(format!("with_last_value.peek() is not the last output at step {i}"));
+			}
+			out.push(o);
+		}
+		res.push(Batch { api: "with_last_value", out, reference: 2, error: err });
+	}
+}
+
+/// reference kind 0 APIs for sized, Sequence-able inputs
+macro_rules! seq_apis {
+	($T:ty, $mk:expr, $init:expr, $v:expr, $chunks:expr, $res:expr) => {{
+		if let Ok(mut m) = <$T as Method>::new($mk(), $init) {
+			$res.push(Batch { api: "over", out: outs(m.over(&$v)), reference: 0, error: None });
+		}
+		if let Ok(mut m) = <$T as Method>::new($mk(), $init) {
+			$res.push(Batch { api: "Sequence::call", out: outs(Sequence::call(&$v, &mut m)), reference: 0, error: None });
+		}
+		if let Ok(mut m) = <$T as Method>::new($mk(), $init) {
+			// chunked: consecutive chunks (possibly empty) through over()
+			let mut out = Vec::new();
+			let mut err = None;
+			let mut pos = 0usize;
+			for &c in $chunks.iter() {
+				let end = (pos + c).min($v.len());
+				let part = m.over(&$v[pos..end]);
+				if part.len() != end - pos {
+					err = Some(format!("over() returned {} outputs for {} inputs", part.len(), end - pos));
+				}
+				out.extend(outs(part));
+				pos = end;
+			}
+			let part = m.over(&$v[pos..]);
+			if part.len() != $v.len() - pos {
+				err = Some(format!("over() returned {} outputs for {} inputs", part.len(), $v.len() - pos));
+			}
+			out.extend(outs(part));
+			$res.push(Batch { api: "over(chunked)", out, reference: 0, error: err });
+		}
+		if let Ok(o) = <$T as Method>::new_over($mk(), &$v) {
+			$res.push(Batch { api: "new_over", out: outs(o), reference: 1, error: None });
+		}
+		// empty input
+		match <$T as Method>::new_over($mk(), &$v[..0]) {
+			Ok(o) if o.is_empty() => {}
+			Ok(_) => $res.push(Batch { api: "new_over(empty)", out: vec![], reference: 1, error: Some("new_over on an empty sequence returned outputs".into()) }),
+			Err(_) => {}
+		}
+	}};
+}
+
+fn fn_apis_sized<T, I: 'static + Clone>(mk: &dyn Fn() -> T::Params, init: &I, v: &'static [I], res: &mut Vec<Batch>)
+where
+	T: Method<Input = I> + 'static,
+	T::Output: IntoOut,
+{
+	if let Ok(m) = T::new(mk(), init) {
+		let mut f = m.into_fn();
+		let out: Vec<Out> = v.iter().map(|x| f(x).into_out()).collect();
+		res.push(Batch { api: "into_fn", out, reference: 0, error: None });
+	}
+}
+
+/// leak a vector so that it can be fed to the boxed closures of into_fn/new_fn (which want one lifetime for all inputs)
+fn leak<I: Clone + 'static>(v: &[I]) -> &'static [I] {
+	Box::leak(v.to_vec().into_boxed_slice())
+}
+
+#[allow(non_snake_case)]
+fn VV<T>(mk: impl Fn() -> T::Params, init: &In, xs: &[In], chunks: &[usize]) -> Vec<Batch>
+where
+	T: Method<Input = V, Output = V> + 'static,
+{
+	let mut res = VO::<T>(&mk, init, xs, chunks);
+	let v = unv(xs);
+	let init = if let In::V(i) = init { *i } else { panic!("harness") };
+	if let Ok(mut m) = T::new(mk(), &init) {
+		let mut w = v.clone();
+		m.apply(&mut w);
+		res.push(Batch { api: "apply", out: outs(w), reference: 0, error: None });
+	}
+	if let Ok(mut m) = T::new(mk(), &init) {
+		let mut w = v.clone();
+		let mut pos = 0usize;
+		for &c in chunks {
+			let end = (pos + c).min(w.len());
+			let mut sl = &mut w[pos..end];
+			Sequence::apply(&mut sl, &mut m);
+			pos = end;
+		}
+		let mut sl = &mut w[pos..];
+		Sequence::apply(&mut sl, &mut m);
+		res.push(Batch { api: "Sequence::apply(chunked)", out: outs(w), reference: 0, error: None });
+	}
+	{
+		let mut w = v.clone();
+		if T::new_apply(mk(), &mut w).is_ok() {
+			let err = if w.len() != v.len() { Some("new_apply changed the length".to_string()) } else { None };
+			res.push(Batch { api: "new_apply", out: outs(w), reference: 1, error: err });
+		}
+		let mut e: Vec<V> = Vec::new();
+		let _ = T::new_apply(mk(), &mut e);
+	}
+	res
+}
+
+#[allow(non_snake_case)]
+fn VO<T>(mk: impl Fn() -> T::Params, init: &In, xs: &[In], chunks: &[usize]) -> Vec<Batch>
+where
+	T: Method<Input = V> + 'static,
+	T::Output: IntoOut + Clone + std::fmt::Debug,
+{
+	let mut res = Vec::new();
+	let v = unv(xs);
+	let init = if let In::V(i) = init { *i } else { panic!("harness") };
+	seq_apis!(T, mk, &init, v, chunks, res);
+	let lv = leak(&v);
+	fn_apis_sized::<T, V>(&mk, &init, lv, &mut res);
+	if let Ok(mut f) = T::new_fn(mk(), &init) {
+		let out: Vec<Out> = lv.iter().map(|x| f(x).into_out()).collect();
+		res.push(Batch { api: "new_fn", out, reference: 0, error: None });
+	}
+	let refs: Vec<&V> = v.iter().collect();
+	wrappers::<T, V>(&mk, &init, &refs, &mut res);
+	res
+}
+
+#[allow(non_snake_case)]
+fn PO<T>(mk: impl Fn() -> T::Params, init: &In, xs: &[In], _chunks: &[usize]) -> Vec<Batch>
+where
+	T: Method<Input = (V, V)> + 'static,
+	T::Output: IntoOut + Clone + std::fmt::Debug,
+{
+	let mut res = Vec::new();
+	let v = unp(xs);
+	let init = if let In::P(a, b) = init { (*a, *b) } else { panic!("harness") };
+	let lv = leak(&v);
+	fn_apis_sized::<T, (V, V)>(&mk, &init, lv, &mut res);
+	if let Ok(mut f) = T::new_fn(mk(), &init) {
+		let out: Vec<Out> = lv.iter().map(|x| f(x).into_out()).collect();
+		res.push(Batch { api: "new_fn", out, reference: 0, error: None });
+	}
+	let refs: Vec<&(V, V)> = v.iter().collect();
+	wrappers::<T, (V, V)>(&mk, &init, &refs, &mut res);
+	res
+}
+
+#[allow(non_snake_case)]
+fn CO<T>(mk: impl Fn() -> T::Params, init: &In, xs: &[In], _chunks: &[usize]) -> Vec<Batch>
+where
+	T: Method<Input = dyn OHLCV> + 'static,
+	T::Output: IntoOut + Clone + std::fmt::Debug,
+{
+	let mut res = Vec::new();
+	let v = unc(xs);
+	let init = if let In::C(c) = init { *c } else { panic!("harness") };
+	let lv = leak(&v);
+	if let Ok(m) = T::new(mk(), &init) {
+		let mut f = m.into_fn();
+		let out: Vec<Out> = lv.iter().map(|x| f(x as &dyn OHLCV).into_out()).collect();
+		res.push(Batch { api: "into_fn", out, reference: 0, error: None });
+	}
+	if let Ok(mut f) = T::new_fn(mk(), &init) {
+		let out: Vec<Out> = lv.iter().map(|x| f(x as &dyn OHLCV).into_out()).collect();
+		res.push(Batch { api: "new_fn", out, reference: 0, error: None });
+	}
+	let refs: Vec<&dyn OHLCV> = v.iter().map(|c| c as &dyn OHLCV).collect();
+	wrappers::<T, dyn OHLCV>(&mk, &init, &refs, &mut res);
+	res
+}
+
+#[allow(non_snake_case)]
+fn CCO<T>(mk: impl Fn() -> T::Params, init: &In, xs: &[In], chunks: &[usize]) -> Vec<Batch>
+where
+	T: Method<Input = Candle> + 'static,
+	T::Output: IntoOut + Clone + std::fmt::Debug,
+{
+	let mut res = Vec::new();
+	let v = unc(xs);
+	let init = if let In::C(c) = init { *c } else { panic!("harness") };
+	seq_apis!(T, mk, &init, v, chunks, res);
+	let lv = leak(&v);
+	fn_apis_sized::<T, Candle>(&mk, &init, lv, &mut res);
+	let refs: Vec<&Candle> = v.iter().collect();
+	wrappers::<T, Candle>(&mk, &init, &refs, &mut res);
+	res
+}
+
+dm!(WSma, SMA, V, L, yes, VV);
+dm!(WWma, WMA, V, L, yes, VV);
+dm!(WSwma, SWMA, V, L, yes, VV);
+dm!(WTrima, TRIMA, V, L, yes, VV);
+dm!(WHma, HMA, V, L, yes, VV);
+dm!(WLinReg, LinReg, V, L, yes, VV);
+dm!(WConv, Conv, V, W, yes, VV);
+dm!(WVwma, VWMA, P, L, yes, PO);
+dm!(WIntegral, Integral, V, L, yes, VV);
+dm!(WDerivative, Derivative, V, L, no, VV);
+dm!(WMomentum, Momentum, V, L, no, VV);
+dm!(WRoc, RateOfChange, V, L, no, VV);
+dm!(WPast, Past<V>, V, L, yes, VV);
+dm!(WStDev, StDev, V, L, yes, VV);
+dm!(WMeanAbsDev, MeanAbsDev, V, L, yes, VV);
+dm!(WMedianAbsDev, MedianAbsDev, V, L, yes, VV);
+dm!(WCci, CCI, V, L, no, VV);
+dm!(WLinVol, LinearVolatility, V, L, yes, VV);
+dm!(WAdi, ADI, C, L, yes, CO);
+dm!(WEma, EMA, V, L, yes, VV);
+dm!(WDma, DMA, V, L, yes, VV);
+dm!(WTma, TMA, V, L, yes, VV);
+dm!(WDema, DEMA, V, L, yes, VV);
+dm!(WTema, TEMA, V, L, yes, VV);
+dm!(WRma, RMA, V, L, yes, VV);
+dm!(WWsma, WSMA, V, L, yes, VV);
+dm!(WSmm, SMM, V, L, yes, VV);
+dm!(WVidya, Vidya, V, L, yes, VV);
+dm!(WTsi, TSI, V, LL, yes, VV);
+dm!(WTr, TR, C, U, no, CO);
+dm!(WHeikin, HeikinAshi, C, U, no, CO);
+dm!(WHighest, Highest, V, L, yes, VV);
+dm!(WLowest, Lowest, V, L, yes, VV);
+dm!(WHld, HighestLowestDelta, V, L, yes, VV);
+dm!(WHighestIndex, HighestIndex, V, L, yes, VO);
+dm!(WLowestIndex, LowestIndex, V, L, yes, VO);
+dm!(WCross, Cross, P, U, no, PO);
+dm!(WCrossAbove, CrossAbove, P, U, no, PO);
+dm!(WCrossUnder, CrossUnder, P, U, no, PO);
+dm!(WReversal, ReversalSignal, V, LL, no, VO);
+dm!(WUpperReversal, UpperReversalSignal, V, LL, no, VO);
+dm!(WLowerReversal, LowerReversalSignal, V, LL, no, VO);
+dm!(WCollapse, CollapseTimeframe<Candle>, CC, Sz, no, CCO);
+dm!(WRenko, Renko, C, Renko, no, CO);
 
 /// largest valid length in the default build
 pub const MAXL: u64 = 254;
